@@ -76,6 +76,10 @@ var pegStatementRules = []string{"dicescript", "stmtSt", "stmtRoot", "stmtLines"
 // computed assignment (C18: nothing else in the input is reinterpreted as part of an edit).
 var pegScopedFlags = []string{"est>exprRoot: DisableStmts=true DisableNDice=true DisableBitwiseOp=true"}
 
+// pegDigitFree: grammar sub-expressions that cannot consume an ASCII digit: the unquoted attribute-name tokens of the st
+// command end where a number begins (`力量60` is the name 力量 followed by the value 60; C18: exactly the written name).
+var pegDigitFree = []string{"st_name1", "st_name1r.0", "st_name2r.0"}
+
 // jsonInt / jsonFloat / jsonStr: the value the JSON document held by b has at a tag path such as "t", "v", "v.expr"
 // (encoding/json document model of dsvc: what Marshal wrote at a path is what Unmarshal reads there).
 func jsonInt(b []byte, path string) IntType   { panic("spec only") }
